@@ -28,6 +28,9 @@ const (
 type wfault struct {
 	delay time.Duration
 	drop  bool
+	// silent: never answered; the fake keeps its side open and only watches for the client
+	// closing the connection
+	silent bool
 }
 
 type wfake struct {
@@ -45,6 +48,8 @@ type wfake struct {
 	// set-up), Metadata ("metadata", auto = the request allows topic creation and names topics)
 	// and Produce ("produce") request
 	fault func(api string, auto bool) wfault
+	// journal, when set, is called for every Metadata and Produce request that arrived
+	journal func(api string)
 }
 
 func newWfake(topics map[string]int) *wfake {
@@ -141,8 +146,15 @@ func (f *wfake) serve(c net.Conn) {
 			auto := req.AllowAutoTopicCreation && len(req.TopicNames) > 0
 			f.count("metadata")
 			vlogf("wfake: metadata v%d topics=%v auto=%v", ver, req.TopicNames, req.AllowAutoTopicCreation)
+			if f.journal != nil {
+				f.journal("metadata")
+			}
 			if f.fault != nil {
 				flt = f.fault("metadata", auto)
+			}
+			if flt.silent {
+				f.hush(c)
+				return
 			}
 			if !f.late(flt) {
 				return
@@ -173,6 +185,24 @@ func (f *wfake) count(api string) {
 	f.mu.Lock()
 	f.nreq[api]++
 	f.mu.Unlock()
+}
+
+// open is the number of connections that the fake still sees open (no EOF from the client yet).
+func (f *wfake) open() int {
+	f.mu.Lock()
+	defer f.mu.Unlock()
+	return len(f.conns)
+}
+
+// hush: the request is never answered; returns when the client has closed the connection (or
+// the fake is shut down).
+func (f *wfake) hush(c net.Conn) {
+	buf := make([]byte, 512)
+	for {
+		if _, err := c.Read(buf); err != nil {
+			return
+		}
+	}
 }
 
 // late waits for the delay of a fault; false = close the connection now.
